@@ -268,4 +268,44 @@ PROPS = {
                        'the model prover; monitors honest_proof_verifies, only_committed_leaf_verifies, out_of_range_is_error_<table>, no_panic, prover_builds_header_with_proof evaluated on '
                        'the real code against a specification verdict computed from the committed structures themselves (not from the verifier model)',
     },
+    'C02': {
+        'lean_targets': ['Shisui.Props.C02'],
+        'min_obligations': 20,
+        # The switches name the deviations of the code AS IT IS (Hc.Quirks); the theorems are about the model with none of them.
+        # Remove a switch when its fix: commit lands (the run then compares that site with the ideal model); leaving a stale
+        # switch in makes the run fail with MISMATCH lines at exactly the repaired site. The monitors never read the switches.
+        'runs': [{'name': 'history', 'harness': ['C02'],
+                  'driver': ['C02', 'ideal']},
+                 {'name': 'net', 'harness': ['C02', 'net'],
+                  'driver': ['C02', 'ideal']}],
+        'rule': 'vc: the real HistoryValidator behind the real ValidationOracle over in-process JSON-RPC (only the far end, '
+                'portal_historyGetContent / portal_beaconGetContent, is scripted). Vectors: every header-with-proof, body and receipt '
+                'vector of history/testdata, types/history/testdata and validation/testdata (27 mainnet blocks; accepted header proofs of '
+                'all four eras; the merge-to-Capella ones rebuilt from validation/testdata/block_proofs_bellatrix) plus synthetic blocks '
+                '(legacy / Shanghai / empty-withdrawals bodies, 0..200 transactions, uncles, empty and non-empty receipts, numbers around '
+                'every fork boundary). Per (block, key type): the genuine pair; single-bit, byte, truncation, extension, insertion, deletion, '
+                'SSZ-offset, empty and random mutations; field mutations through re-encoding (header number/roots/extra/time, proof '
+                'length/other block\'s proof/slot +1,+8192,+2^20,+2^40,-1,0; transactions dropped/duplicated/swapped/added, uncles, '
+                'withdrawals stripped/added/changed; receipts dropped/duplicated/swapped/status/gas); ten header sources (honest, another '
+                'block\'s header, a header forged to carry the content\'s roots, garbage, truncated, RPC error, bad hex, empty, undecodable '
+                'header, genuine header without proof) x genuine/mutated/foreign content; key mutations (bit, truncation, extension, all '
+                'selectors, empty); EVERY single-bit flip and EVERY truncation of one accepted pre-merge header, one synthetic body and its receipts (thorough: of one accepted header per era under both header keys and of twelve bodies / receipt lists); all same-type and sampled other-type cross-pairings. orc: GetBlockHeaderByHash for genuine, one-bit-off, '
+                'short, long, random and empty hashes x the ten sources. gate: Network.validateContents over a recording store, 1..5 '
+                'items from the same pool incl. repeated and pre-stored keys. net: the three block getters of a real node whose only peer '
+                '(real discv5 + uTP over an in-memory link) serves genuine/mutated/foreign content and honest/forged/foreign/no headers. '
+                'non-trivial = the content decodes (vc), the source answered with a decodable header (orc), something was stored or '
+                'refused (gate), content was present locally or remotely (get); distinct = distinct input lines among those',
+        'trusted': ['go-ethereum rlp / Header.Hash / DeriveSha / CalcUncleHash, the fastssz containers and the header-proof check of C03 are '
+                    'parameters of the model (Hc.Env); the harness evaluates them once per case, outside the validator, and sends the results',
+                    HASHES],
+        'assumptions': ['header.Number < 2^64 (the code compares Number.Uint64())',
+                        'bound = some decodable header with the key\'s recomputed hash carries the content\'s roots; uniqueness of that '
+                        'header is keccak collision resistance (stated as an explicit alternative in accepted_body_matches_the_header)',
+                        'historical summaries served by portal_beaconGetContent are the trusted ones (validated by the beacon network, C12)'],
+        'explanation': 'theorems for every decoding environment, key, content and lying header source: accepted => bound (per key type), not '
+                       'bound => error and never a panic, the oracle only returns a header with the requested hash, every Put of '
+                       'validateContents / every value returned or stored by a getter is bound, the store stays clean over every history; '
+                       'verdict equality of the real validator, oracle, gate and getters with the model on every generated case; the '
+                       'clauses accepted=>bound and no-panic are evaluated on the code\'s own verdicts',
+    },
 }
